@@ -52,7 +52,7 @@ def run_digitize(sorted_bins, asc):
 
 
 def digitize_part(ctx, thorough):
-    MB = 24 if thorough else 12
+    MB = 48 if thorough else 12
     invs = "".join("INVARIANT %s\n" % i for i in ("IsDigitize", "AllCasesHandled", "WellFormed", "LeavesCoverBins"))
     base = "SPECIFICATION Spec\nCONSTANTS MaxBins = %d\n" % MB
     r = ctx.add_mc("DigitizeTree(%d)" % MB, tlc.run("MC_DigitizeTree", base + invs, workers=8, coverage=True))
@@ -86,7 +86,7 @@ def digitize_part(ctx, thorough):
     # C2S
     rng = ctx.rng
     traces = []
-    for k in range(120 if thorough else 40):
+    for k in range(500 if thorough else 40):
         n = rng.choice([1, 2, 3, rng.randint(4, 40), rng.randint(13, 90 if thorough else 60)])
         vals = sorted(rng.sample(range(-400, 400), n))
         sb = [v / 8.0 for v in vals]
@@ -242,7 +242,7 @@ def treebox_part(ctx, thorough):
     from sklearn.tree import DecisionTreeRegressor, DecisionTreeClassifier, ExtraTreeRegressor
     rng = ctx.rng
     traces = []
-    for k in range(400 if thorough else 80):
+    for k in range(2000 if thorough else 80):
         d = rng.randint(1, 3)
         n = rng.randint(1, 30)
         R = rng.randint(1, 6)
